@@ -47,6 +47,9 @@ def gen_expressions():
         out.append(f'THETA(1) {o1} {b} {o2} {c}')
         out.append(f'(THETA(1) {o1} {b}) {o2} {c}')
         out.append(f'THETA(1) {o1} ({b} {o2} {c})')
+    # signed literals: the sign is a unary operator below ** (Fortran: -2**2 = -4), also after another operator
+    out += ['-2**2', '-2.5**2*WGT', '-.5**2 + WGT', 'WGT - 3**2', '-2**THETA(1)', '2*-WGT**2', '-1.5E1**2', 'WGT*-2**2',
+            'THETA(1)**-2**2', '(-2)**2*WGT']
     out += ['-THETA(1)**2', '-WGT*THETA(1)', 'THETA(1)*(-WGT)', '+WGT - -THETA(1)', 'THETA(1)**(-1)', 'THETA(1)**-1',
             '2**3**2', 'WGT/2/4', 'WGT-2-4', '1/2*WGT', '1.5E1*WGT', '1.5D-1+WGT', '.5*WGT', '5.*WGT', '1E2/WGT',
             'THETA(1)*EXP(ETA(1))', 'THETA(1)+THETA(2)*WGT**THETA(3)', '(WGT/70)**THETA(3)', 'WGT**0.75',
